@@ -212,6 +212,10 @@ def gen_table(rng, n, big):
             if k == 0 and not rng.chance(1, 20):
                 k = mod
             r = rng.below(10)
+            if not auto and rng.chance(1, 9):
+                # the table's memory moves (ProbingHashTable::Relocate, as when build_binary's mapping is re-made): probe sequences must
+                # still wrap at the table's end and new entries must land in the new memory (sixth-round seeded change C20-18)
+                ops.append("r:0")
             if keys and r < 3:
                 kk = rng.choice(keys) if rng.chance(2, 3) else k
                 ops.append("%s:%s" % (rng.choice("qqm"), hx(kk)))
@@ -304,6 +308,10 @@ def oracle_table(case, out):
         p = op.split(":")
         k = int(p[1], 16)
         r = res[i] if i < len(res) else "<none>"
+        if p[0] == "r":
+            if r != "r":
+                return "op %d: relocation answered %s" % (i, r)
+            continue
         if p[0] in "qm":
             if k == 0:
                 continue    # looking up the invalid key is outside the table's contract
